@@ -54,6 +54,9 @@ def transform(rng, t, kind):
                 # sum overflows; only on unshared nodes, because precision is lost down there and a shared
                 # infoset would then legitimately be rejected as unequal
                 k = 2.0 ** rng.choice([-1040, -1035, -1030, -1027, -1030, -1035, -1000, 900, 1010, 1015])
+                if rng.random() < 0.35:
+                    # the largest weight just below f64::MAX: with three or more comparable outcomes the sum exceeds 2 * MAX
+                    k = 2.0 ** (1023 - math.frexp(max(b2f(w) for w, _ in n["o"]))[1])
                 ws = [b2f(w) * k for w, _ in n["o"]]
                 if all(w > 0.0 and math.isfinite(w) for w in ws):
                     n["o"] = [[f2b(w), c] for w, (_, c) in zip(ws, n["o"])]
@@ -159,7 +162,7 @@ def build(cid, t, st, prof, preset, T, meta):
     cb.num_infosets()
     s = cb.import_(named_for(t, prof), fast=True)
     cb.info(s)
-    k = cb.solve("full", T, 0.0, 1, preset)
+    k = cb.solve("full", T, meta.get("r", 0.0), 1, preset)
     cb.named(k)
     cb.info(k)
     return cb
@@ -184,8 +187,12 @@ def generate(rng, tier, n):
             for info, act in singles2[pl].items():
                 prof2[pl].setdefault(info, {act: 1.0})
         meta = {"pair": pair, "kind": kind, "tinfo": tinfo, "T": T, "preset": preset}
-        cases.append(build(2 * pair, t, st, prof, preset, T, dict(meta, side="orig")))
-        cases.append(build(2 * pair + 1, t2, tree_stats(t2), prof2, preset, T, dict(meta, side="trans")))
+        # a positive early-termination threshold (the same on both presentations; multiplied by c when the payoffs are):
+        # which player's bound ends the run must not depend on the presentation
+        r = rng.choice([0.0, 0.0, 0.3, 1.0, 3.0]) if kind in ("swap", "rename", "insert", "remove", "scale") and not tinfo.get("extreme") else 0.0
+        r2 = r * tinfo.get("c", 1.0) if kind == "scale" else r
+        cases.append(build(2 * pair, t, st, prof, preset, T, dict(meta, side="orig", r=r)))
+        cases.append(build(2 * pair + 1, t2, tree_stats(t2), prof2, preset, T, dict(meta, side="trans", r=r2)))
         pair += 1
     return cases
 
